@@ -1090,6 +1090,17 @@ class Discharger:
         if src in ok_sources:
             self.facts_used.add('positive stream ids')
             return (True, ok_sources[src])
+        # the argument may have travelled through locals / tuples: decide
+        # on the value it has on every path that reaches the constructor
+        shows = set()
+        for p in self.I.run(fi):
+            for e in p.events:
+                if e.kind in ('new', 'call') and e.node is node and \
+                        e.get('args'):
+                    shows.add(cm.show0(e.args[0]))
+        if shows and shows <= set(ok_sources):
+            self.facts_used.add('positive stream ids')
+            return (True, '; '.join(ok_sources[x] for x in sorted(shows)))
         return (False, '%s(%s): hyperframe raises InvalidDataError for a '
                 'stream id of the wrong kind' % (cls, src))
 
